@@ -69,6 +69,23 @@ def rule_module_fields(ctx):
             sig = [s for s in walk(c0) if is_const(s)]
             ok = any(s[1] == 0x4270454C for s in sig) and root(strip(c1[2][0] if c1[0] == "call" else c1)) == ("param", 3)
         ctx.check(ok, R, "cv-bytes", b.where(x), "CV record bytes = 'BpEL' (0x4270454c, native endian) followed by the identifier bytes", "CV record bytes come from %s" % show(val)[:160])
+    # the zero CV record is chosen exactly when there is no identifier at all: a caller-supplied identifier is listed verbatim,
+    # whatever its bytes are (an all-zero one included; the all-zero filter for TARGET mappings lives in write())
+    dflt = [(bi, t) for bi, t in b.calls(lambda c: (c.short or "").split("::")[-1] == "default" and "Default" in (c.short or ""))
+            if "LOCATION_DESCRIPTOR" in (CalleeView(t["callee"]).inst or "") or "MDLocationDescriptor" in (CalleeView(t["callee"]).inst or "")]
+    if len(dflt) == 1:
+        dnf = conditions(b, dflt[0][0], origin=o, relevant=lambda a_: a_[0] in ("call", "discr", "bin"))
+        good = False
+        if dnf and len(dnf) == 1:
+            lits = list(list(dnf)[0])
+            if len(lits) == 1:
+                a_, v_ = lits[0]
+                a_ = strip(a_)
+                good = a_[0] == "call" and a_[1].split("::")[-1] == "is_empty" and root(strip(a_[2][0])) == ("param", 3) and v_ == 1
+        ctx.check(good, R, "zero-cv-iff-no-id", b.where(dflt[0][0]), "the CV record is left zero iff the identifier is empty",
+                  "the CV record is left zero under %s — an identifier that is present is not listed verbatim" % [[(show(a_)[:70], v_) for a_, v_ in c] for c in (dnf or [])][:2])
+    else:
+        ctx.unproven(R, "zero-cv-iff-no-id", b.where(0), "expected one Default::default() for the CV location in fill_raw_module (found %d)" % len(dflt))
     # in write(): identifier handed to fill_raw_module is the BuildId read for the same map_idx; mapping = mappings[map_idx]
     w = ctx.body(R, MW)
     if w is not None:
